@@ -167,6 +167,16 @@ def adjoint_tests(which):
             node = getattr(act, cls)(a, x0, y0)
             fd = (node.forward(x + h) - node.forward(x - h)) / (2 * h)
             check(cls + '-derivative', bool(np.allclose(node.backprop(x.copy()), fd, rtol=1e-5, atol=1e-7)))
+        # far out on the tails (|a (x - x0)| of several hundred) the saturating nodes are flat: the derivative is a finite number
+        # (zero to rounding), not the nan of an overflowed intermediate
+        import warnings
+        xt = x0 + np.array([-900.0, -720.0, -300.0, 300.0, 720.0, 900.0]) / a
+        with warnings.catch_warnings():
+            warnings.simplefilter('ignore')
+            for cls in ('Tanh', 'Arctan', 'Sigmoid'):
+                node = getattr(act, cls)(a, x0, y0)
+                d_ = np.asarray(node.backprop(xt.copy()), dtype=float)
+                check(cls + '-derivative-on-the-tails', bool(np.isfinite(d_).all() and np.all(abs(d_) <= (1e-4 if cls == 'Arctan' else 1e-100) * a)))
     elif which == 'softmax-encoder':
         act = get('prysm.x.optym.activation')
         K = int(rng.integers(2, 6))
@@ -231,6 +241,13 @@ def adjoint_tests(which):
             check(name + '-gradient', bool(np.isclose((g * d).sum(), fd, rtol=1e-4, atol=1e-8)))
         # what makes the returned expression the true gradient: alpha, beta are the least-squares gain and bias, so the cost does
         # not change when the model is rescaled and offset (its documented purpose) and its partial derivatives in them vanish
+        # predictions at the very edge of (0, 1): the cost and its derivative are those of the formula, not of a clipped stand-in
+        ye = np.array([[3e-17, 1e-300, 0.5], [1 - 1e-16, 1e-9, 1 - 2.5e-16]])
+        de = np.clip(rng.random(ye.shape), 0.05, 0.95)
+        ce, ge = cst.negative_loglikelihood(ye, de, None)
+        want_c = -(de * np.log(ye) + (1 - de) * np.log(1 - ye)).sum() / ye.size
+        want_g = (-de / ye + (1 - de) / (1 - ye)) / ye.size
+        check('negative_loglikelihood-at-extreme-predictions', bool(np.isclose(ce, want_c, rtol=1e-12) and np.allclose(ge, want_g, rtol=1e-12)))
         ga, of = float(rng.uniform(0.2, 5)), float(rng.uniform(-3, 3))
         check('bias_and_gain_invariant_error-is-invariant',
               bool(np.isclose(cst.bias_and_gain_invariant_error(ga * Mo + of, D, mask)[0], cst.bias_and_gain_invariant_error(Mo, D, mask)[0], rtol=1e-9, atol=1e-12)))
@@ -239,6 +256,9 @@ def adjoint_tests(which):
         s = int(rng.choice([32, 33]))
         yy, xx = np.mgrid[:s, :s]
         ifn = np.exp(-((yy - s // 2) ** 2 + (xx - s // 2) ** 2) / (2 * 2.0 ** 2))
+        if rng.random() < 0.5:
+            # an influence function that is not point-symmetric about its centre sample (skewed, peak off the sample)
+            ifn = np.exp(-((yy - s // 2 - 0.4) ** 2 / (2 * 1.6 ** 2) + (xx - s // 2 + 0.7) ** 2 / (2 * 2.3 ** 2))) * (1 + 0.3 * np.tanh((xx - s // 2) / 3.0))
         Nact = int(rng.integers(2, 5))
         # resampled output (upsample != 1) in half of the cases; then pad / crop relative to the resampled size
         up = float(rng.choice([1, 1, 1, 2, 0.5, 1.5, 0.75, 1.25]))
